@@ -1,8 +1,67 @@
 import PymtlVerif.Driver.Sexp
-/-! Handler `vcd` (stub: not built yet). -/
-namespace PV.Driver.Vcd
-open PV
+import PymtlVerif.Model.VCD
+/-!
+Handler `vcd`: executable face of `Model/VCD.lean` for the C16 correspondence check.
 
-def handle (_args : List Sexp) : Option String := none
+Wire format (VCD symbols may contain parentheses, so a symbol travels as the list of its character codes):
+* `vcd dump (w…) clk (init…) ((v…)…)`      → the value-change section as text, lines separated by blanks
+* `vcd decls (w…) clk (sig-net…)`          → `((w (codes…)) …)` one entry per declared signal
+* `vcd replay ((w (codes…))…) (ev…) n`      → `((v|x …) …)` per cycle, per declaration
+* `vcd edges (codes…) (ev…)`               → `((t v) …)` timestamped value lines of that symbol
+* `vcd sym n`                              → `(codes…)`
+with `ev` = `(t <time>)` or `(c <value token> (codes…))`; the value token is `0`, `1` or `b<digits>` — a `b…`
+token stands for the text `b<digits>` followed by the blank that separated it from the symbol in the file.
+-/
+namespace PV.Driver.Vcd
+open PV PV.VCD
+
+def sym? (x : Sexp) : Option String := do
+  let cs ← x.nats?
+  some (String.ofList (cs.map Char.ofNat))
+
+def symOut (s : String) : String := natsToString (s.toList.map Char.toNat)
+
+def valIn (tok : String) : String :=
+  match tok.toList with
+  | 'b' :: _ => tok ++ " "
+  | _ => tok
+
+def ev? : Sexp → Option Ev
+  | .list [.atom "t", t] => do some (.time (← t.nat?))
+  | .list [.atom "c", .atom v, s] => do some (.chg (valIn v) (← sym? s))
+  | _ => none
+
+def decl? : Sexp → Option (Nat × String)
+  | .list [w, s] => do some (← w.nat?, ← sym? s)
+  | _ => none
+
+def rows? (x : Sexp) : Option (List (List Nat)) := do
+  let xs ← x.list?
+  xs.mapM Sexp.nats?
+
+def showOpt : Option Nat → String
+  | some v => toString v
+  | none => "x"
+
+def handle (args : List Sexp) : Option String :=
+  match args with
+  | [.atom "dump", ws, clk, init, tr] => do
+      let d : Design := { widths := ← ws.nats?, clk := ← clk.nat?, sigs := [] }
+      let evs := dump d (← init.nats?) (← rows? tr)
+      some (" ".intercalate (evs.map Ev.text))
+  | [.atom "decls", ws, clk, sigs] => do
+      let d : Design := { widths := ← ws.nats?, clk := ← clk.nat?, sigs := ← sigs.nats? }
+      some ("(" ++ " ".intercalate ((decls d).map (fun p => s!"({p.1} {symOut p.2})")) ++ ")")
+  | [.atom "replay", .list ds, .list evs, n] => do
+      let ds ← ds.mapM decl?
+      let evs ← evs.mapM ev?
+      let r := replay ds evs (← n.nat?)
+      some ("(" ++ " ".intercalate (r.map (fun row => "(" ++ " ".intercalate (row.map showOpt) ++ ")")) ++ ")")
+  | [.atom "edges", s, .list evs] => do
+      let evs ← evs.mapM ev?
+      let r := edgesOf (← sym? s) none evs
+      some ("(" ++ " ".intercalate (r.map (fun p => s!"({p.1} {p.2})")) ++ ")")
+  | [.atom "sym", n] => do some (symOut (symbol (← n.nat?)))
+  | _ => none
 
 end PV.Driver.Vcd
